@@ -236,7 +236,7 @@ func GenSession(r *rand.Rand, idx int) Session {
 	s := Session{Version: []string{"1.0", "1.1"}[idx%2], Echo: (idx/2)%2 == 1}
 	p := r.Intn(100)
 	switch {
-	case p < 7:
+	case p < 2 || idx%16 == 5: // a fixed share of long sessions whatever the PRNG says
 		s.Profile = "long"
 	case p < 19:
 		s.Profile = "all-late"
